@@ -552,7 +552,11 @@ def workload(ctx):
             arr_1 = np.empty((3,), dtype=object)
             for j in range(3):
                 arr_1[j] = (gen.int(1), gen.int(1), 5)
+            # a ZERO-dimensional object array holding one expression: still an array afterwards
+            arr_0 = np.empty((), dtype=object)
+            arr_0[()] = gen.int(2)
             for cont, hashable in ((list(items), False), (tuple(items), True), (arr, False),
+                                   (arr_0, False),
                                    (arr_t, False), (arr_1, False),
                                    ([tuple(items), [p.NaN(), 1]], False),
                                    (p.Sum((p.NaN(), gen.num(2))), True),
